@@ -78,7 +78,7 @@ int main(int argc, char **argv) {
             free(p);
         } else if (op == "decode" && f.size() >= 5) {
             if (!face) face = gr_make_file_face(fontp.c_str(), 0);
-            size_t nchars = strtoul(f[3].c_str(), 0, 10);
+            size_t nchars = strtoull(f[3].c_str(), 0, 10);
             std::vector<uint32_t> u = parse_units(f[4], enc);
             void *keep; gr_segment *s = mk(enc, u, nchars, 0, &keep);
             if (!s) printf("%s D NULL\n", id.c_str());
